@@ -37,6 +37,7 @@ class FlockRun:
         self.sched = Scheduler(Clock(0))
         self.fds = FdTable()
         self.locks: Dict[int, Any] = {}
+        self.provs: Dict[int, Any] = {}
         self.dead: set = set()
         self.obs: List[Tuple[Any, ...]] = []           # one per event
         self.problems: List[Dict[str, Any]] = []       # oracle failures
@@ -145,15 +146,19 @@ class FlockRun:
         return out
 
     def _acq(self, c: int, blocking: bool, timeout_ms: int) -> Tuple[Any, ...]:
-        from datashard.file_lock import FileLock
+        from datashard.lock_provider import LocalLockProvider
         if self._busy(c):
             return ("nop", "RNone")
         lk = self.locks.get(c)
         if lk is None:
-            lk = self.locks[c] = FileLock(self.path, timeout=float(timeout_ms))
+            # the table's commit lock as storage_backend.create_lock builds it; .lock is the FileLock
+            self.provs[c] = LocalLockProvider(self.path, timeout=float(timeout_ms))
+            lk = self.locks[c] = self.provs[c].lock
         lk.timeout = float(timeout_ms)
         self.call[c] = {"kind": "acq", "blocking": blocking, "timeout": timeout_ms, "reads": [], "sleeps": 0}
-        self.sched.start(c, lambda: lk.acquire(blocking))
+        prov = self.provs[c]
+        # LockProvider.acquire() is the blocking call; the non-blocking form exists on FileLock only
+        self.sched.start(c, prov.acquire if blocking else (lambda: lk.acquire(False)))
         return ("call", c, "RNone")
 
     def _rel(self, c: int) -> Tuple[Any, ...]:
@@ -164,7 +169,7 @@ class FlockRun:
         if lk is None:
             return ("call", c, "RNone")
         self.call[c] = {"kind": "rel"}
-        a = self.sched.start(c, lk.release)
+        a = self.sched.start(c, self.provs[c].release)
         if a.state == "done":
             self.call.pop(c, None)
         return ("call", c, "RNone")
@@ -185,8 +190,8 @@ class FlockRun:
     def _state_oracle(self, ev: List[Any]) -> None:
         if len(self.in_cs) > 1:
             self.problems.append({"oracle": "flock-mutex", "in_critical_section": sorted(self.in_cs), "after": ev})
-        quiet_holders = [c for c, lk in self.locks.items()
-                         if c not in self.dead and not self._busy(c) and lk.is_held()]
+        quiet_holders = [c for c, pv in self.provs.items()
+                         if c not in self.dead and not self._busy(c) and pv.is_held()]
         if len(quiet_holders) > 1:
             self.problems.append({"oracle": "flock-is-held-two", "clients": quiet_holders, "after": ev})
         if not self.probe or not os.path.exists(self.path):
